@@ -655,4 +655,154 @@ theorem refVisit_app {g : Graph} {q : E → Bool} {P : Nat → Prop} {entered : 
     rw [hv]
     exact store_inv hq T j _ ha r.vals vals' _ hset hinv (Or.inr (Or.inr ⟨input, rfl, hx⟩))
 
+/-! ### Entering and leaving a graph; whole traversals -/
+
+theorem inputs_inv {q : E → Bool} {P : Nat → Prop} (hq : QOK q) : ∀ (l : List Nat) (vals vals' : List (E × E)),
+    l.foldlM (fun vals t => setCache 64 vals (.var t) (inAtom t)) vals = .ok vals' → MemoInv q P vals →
+    (∀ t ∈ l, (q (inAtom t) = true ↔ P t)) → MemoInv q P vals' := by
+  intro l
+  induction l with
+  | nil =>
+    intro vals vals' h hinv _
+    simp only [List.foldlM_nil, pure, Except.pure, Except.ok.injEq] at h
+    subst h
+    exact hinv
+  | cons t rest ih =>
+    intro vals vals' h hinv hl
+    simp only [List.foldlM_cons, bind, Except.bind] at h
+    cases h1 : setCache 64 vals (.var t) (inAtom t) with
+    | error err => simp [h1] at h
+    | ok v1 =>
+      simp only [h1] at h
+      refine ih v1 vals' h ?_ (fun t' ht' => hl t' (List.mem_cons_of_mem _ ht'))
+      apply memoInv_setCache hq 64 vals v1 (.var t) (inAtom t) hinv h1
+      · intro hqt
+        exact ⟨t, rfl, (hl t (by simp)).1 hqt⟩
+      · intro y hy hPy
+        simp only [regKeys, keyOf, Option.toList, List.mem_singleton, E.var.injEq] at hy
+        subst hy
+        exact ⟨rfl, (hl y (by simp)).2 hPy⟩
+
+theorem refVisit_enter {g : Graph} {q : E → Bool} {P : Nat → Prop} {entered : Nat → Prop} (hq : QOK q) (T : Track g q P entered)
+    (up : Bool) (r r' : RState) (k : Nat) (hk : entered k) (h : refVisit g up r (.enter k) = .ok r') (hinv : MemoInv q P r.vals) :
+    MemoInv q P r'.vals ∧ r'.trace = r.trace := by
+  simp only [refVisit] at h
+  cases hg : g.graphs[k]? with
+  | none => simp [hg, throw, throwThe, MonadExceptOf.throw] at h
+  | some sg =>
+    simp only [hg, bind, Except.bind] at h
+    cases h1 : setCache 64 r.vals (.gref k) (closAtom k) with
+    | error err => simp [h1] at h
+    | ok v1 =>
+      simp only [h1] at h
+      cases h2 : sg.inputs.foldlM (fun vals t => setCache 64 vals (.var t) (inAtom t)) v1 with
+      | error err => simp [h2] at h
+      | ok v2 =>
+        simp only [h2, pure, Except.pure, Except.ok.injEq] at h
+        subst h
+        refine ⟨?_, rfl⟩
+        have hinv1 : MemoInv q P v1 := by
+          apply memoInv_setCache hq 64 r.vals v1 (.gref k) (closAtom k) hinv h1
+          · intro hqc; rw [hq.clos k] at hqc; cases hqc
+          · intro y hy; simp [regKeys, keyOf] at hy
+        exact inputs_inv hq sg.inputs v1 v2 h2 hinv1 (fun t ht => T.inp k sg t hk hg ht)
+
+theorem refVisit_exit (g : Graph) (up : Bool) (r r' : RState) (k : Nat) (h : refVisit g up r (.exit k) = .ok r') :
+    r'.vals = r.vals ∧ r'.trace = r.trace := by
+  simp only [refVisit] at h
+  cases hg : g.graphs[k]? with
+  | none => simp [hg, throw, throwThe, MonadExceptOf.throw] at h
+  | some sg =>
+    simp only [hg, bind, Except.bind] at h
+    cases h1 : convTop r.vals sg.output with
+    | error err => simp [h1] at h
+    | ok t =>
+      simp only [h1, pure, Except.pure, Except.ok.injEq] at h
+      subst h
+      exact ⟨rfl, rfl⟩
+
+/-- Any step: invariant kept, events described. -/
+theorem refVisit_step {g : Graph} {q : E → Bool} {P : Nat → Prop} {entered : Nat → Prop} (hq : QOK q) (T : Track g q P entered)
+    (up : Bool) (r r' : RState) (v : Visit) (hent : ∀ k, v = .enter k → entered k) (h : refVisit g up r v = .ok r')
+    (hinv : MemoInv q P r.vals) :
+    MemoInv q P r'.vals ∧ ∃ evs, r'.trace = r.trace ++ evs ∧ StepEvs g q P v evs := by
+  cases v with
+  | app j => exact refVisit_app hq T up r r' j h hinv
+  | enter k =>
+    obtain ⟨h1, h2⟩ := refVisit_enter hq T up r r' k (hent k rfl) h hinv
+    exact ⟨h1, [], by simpa using h2, stepEvs_nil g q P _ (by intro _ _ _ _ _ _ hv; cases hv)⟩
+  | exit k =>
+    obtain ⟨h1, h2⟩ := refVisit_exit g up r r' k h
+    exact ⟨by rw [h1]; exact hinv, [], by simpa using h2, stepEvs_nil g q P _ (by intro _ _ _ _ _ _ hv; cases hv)⟩
+
+/-- A stretch of the traversal without a call of a `P` tracer adds no tracked call event. -/
+theorem segment_untracked {g : Graph} {q : E → Bool} {P : Nat → Prop} {entered : Nat → Prop} (hq : QOK q) (T : Track g q P entered)
+    (up : Bool) : ∀ (order : List Visit) (r r' : RState), order.foldlM (refVisit g up) r = .ok r' → MemoInv q P r.vals →
+      (∀ k, Visit.enter k ∈ order → entered k) → (∀ v ∈ order, ¬ PCall g P v) →
+      MemoInv q P r'.vals ∧ ∃ evs, r'.trace = r.trace ++ evs ∧ evs.filter (trackedCall q) = [] := by
+  intro order
+  induction order with
+  | nil =>
+    intro r r' h hinv _ _
+    simp only [List.foldlM_nil, pure, Except.pure, Except.ok.injEq] at h
+    subst h
+    exact ⟨hinv, [], by simp, rfl⟩
+  | cons v rest ih =>
+    intro r r' h hinv hent hno
+    simp only [List.foldlM_cons, bind, Except.bind] at h
+    cases h1 : refVisit g up r v with
+    | error err => simp [h1] at h
+    | ok r1 =>
+      simp only [h1] at h
+      obtain ⟨hinv1, evs1, e1, s1⟩ := refVisit_step hq T up r r1 v (fun k hv => hent k (by rw [hv]; simp)) h1 hinv
+      obtain ⟨hinv2, evs2, e2, f2⟩ := ih r1 r' h hinv1 (fun k hk => hent k (List.mem_cons_of_mem _ hk))
+        (fun v' hv' => hno v' (List.mem_cons_of_mem _ hv'))
+      refine ⟨hinv2, evs1 ++ evs2, by rw [e2, e1, List.append_assoc], ?_⟩
+      rw [List.filter_append, f2, List.append_nil]
+      apply List.filter_eq_nil_iff.2
+      intro ev hev ht
+      exact hno v (by simp) (s1.1 ev hev ht)
+
+/-- **Exactly one tracked call event**: along a traversal without repetition that visits the call `i` of a `P` tracer — the only
+such call it visits —, the trace of the reference evaluation contains exactly one call event whose function term is a tracked
+atom: the event of node `i`, with the node's number of positional arguments and keyword names. -/
+theorem tracked_call_once {g : Graph} {q : E → Bool} {P : Nat → Prop} {entered : Nat → Prop} (hq : QOK q) (T : Track g q P entered)
+    (up : Bool) (order : List Visit) (r : RState) (h : evalGraph g up order = .ok r) (hnd : order.Nodup)
+    (hent : ∀ k, Visit.enter k ∈ order → entered k)
+    (i y : Nat) (args : List E) (kwargs : List (String × E)) (deps : List E) (out : Nat)
+    (ha : g.apps[i]? = some (.call (.var y) args kwargs deps out)) (hPy : P y) (hal : isAllowInline g (.var y) = false)
+    (hi : Visit.app i ∈ order) (huniq : ∀ v ∈ order, PCall g P v → v = .app i) :
+    ∃ f as ks, r.trace.filter (trackedCall q) = [.call (E.mk .call (f :: as ++ ks))] ∧ q f = true ∧
+      as.length = args.length ∧ ks.map kwName = kwargs.map (fun kv => some kv.1) := by
+  obtain ⟨pre, post, hsplit, hpre, hpost⟩ := mem_split_nodup order (.app i) hnd hi
+  subst hsplit
+  simp only [evalGraph] at h
+  rw [List.foldlM_append] at h
+  simp only [bind, Except.bind] at h
+  cases h1 : pre.foldlM (refVisit g up) {} with
+  | error err => simp [h1] at h
+  | ok r1 =>
+    simp only [h1, List.foldlM_cons, bind, Except.bind] at h
+    cases h2 : refVisit g up r1 (.app i) with
+    | error err => simp [h2] at h
+    | ok r2 =>
+      simp only [h2] at h
+      have hno : ∀ (l : List Visit), (∀ v ∈ l, v ∈ pre ++ Visit.app i :: post) → Visit.app i ∉ l → ∀ v ∈ l, ¬ PCall g P v := by
+        intro l hsub hni v hv hp
+        have := huniq v (hsub v hv) hp
+        rw [this] at hv
+        exact hni hv
+      obtain ⟨hinv1, evs1, e1, f1⟩ := segment_untracked hq T up pre {} r1 h1 (MemoInv.nil q P)
+        (fun k hk => hent k (List.mem_append_left _ hk)) (hno pre (fun v hv => List.mem_append_left _ hv) hpre)
+      obtain ⟨hinv2, evs2, e2, s2⟩ := refVisit_app hq T up r1 r2 i h2 hinv1
+      obtain ⟨evs3, e3, f3⟩ := (segment_untracked hq T up post r2 r h hinv2
+        (fun k hk => hent k (List.mem_append_right _ (List.mem_cons_of_mem _ hk)))
+        (hno post (fun v hv => List.mem_append_right _ (List.mem_cons_of_mem _ hv)) hpost)).2
+      obtain ⟨f, as, ks, hev, hqf, hlen, hnames⟩ := s2.2 i y args kwargs deps out rfl ha hPy hal
+      refine ⟨f, as, ks, ?_, hqf, hlen, hnames⟩
+      rw [e3, e2, e1]
+      simp only [List.nil_append, List.filter_append, f1, f3, List.append_nil, hev]
+      rw [List.cons_append] at hev ⊢
+      simp [List.filter, trackedCall_mk, hqf]
+
 end Einx.Exec
